@@ -106,6 +106,9 @@ type vFile struct {
 	iFile
 	path string
 	pkg  string
+	// isImport: the file is only in the image because a target file imports it (breaking handlers treat such
+	// files like any other; excluding imports happens before the handlers run)
+	isImport bool
 	// containers
 	msgs  []bufprotosource.Message
 	enums []bufprotosource.Enum
@@ -119,6 +122,7 @@ type vFile struct {
 }
 
 func (f *vFile) Path() string                             { return f.path }
+func (f *vFile) IsImport() bool                           { return f.isImport }
 func (f *vFile) File() bufprotosource.File                { return f }
 func (f *vFile) Package() string                          { return f.pkg }
 func (f *vFile) Messages() []bufprotosource.Message       { return f.msgs }
@@ -340,7 +344,10 @@ type vbOneof struct {
 	vbiOneof
 	name      string
 	synthetic bool
+	fields    []bufprotosource.Field
 }
+
+func (o *vbOneof) Fields() []bufprotosource.Field { return o.fields }
 
 func (o *vbOneof) Name() string { return o.name }
 func (o *vbOneof) AsDescriptor() (protoreflect.OneofDescriptor, error) {
